@@ -46,7 +46,7 @@ CHECKS = {
         category="model_checking",
         text="TLC generates definitions with rectangular sensor sets (readings != states, calibration present) and computes every "
              "Jacobian entry as Eval(Diff(tree, column)) keyed by (row name, column name); behaviours are replayed into "
-             "process_jacobian / control_jacobian / sensor_jacobian of the real filter with CSE off and on.",
+             "process_jacobian / control_jacobian / sensor_jacobian of the real filter with CSE off and on. A second configuration always has two calibration terms and chained binary growth, so that sensor expressions mix states and both calibrations; the failing input of known finding F1 is replayed on every run.",
         design_ref="DESIGN.md section 4 C03",
         note="Trusted: Diff/Eval in Expr.tla (exact), reference interpreter applied to the spec's derivative TREE for elementary functions.",
         technique="TLA+ spec (Formak.tla JacEval/SensEval) + TLC simulation; spec->code replay into the Python EKF",
@@ -55,7 +55,7 @@ CHECKS = {
         category="model_checking",
         text="TLC computes x' = f(x,u) and P' = G P G^T + V M V^T exactly (M assembled by control NAME with distinct noises) along histories of "
              "6-9 SetEstimate/Predict calls on ONE filter object that repeat dt values (incl. dt = 0), checks symmetry/PSD of every covariance as "
-             "an invariant, and the behaviours are replayed into process_model (inputs unmodified, repeat call identical). Thorough tier: every model / filter call the repository's own test-suite executes is recorded (pytest plugin, /repo untouched), projected against the Jacobian trees Derive.tla derives from the recorded definition and validated by EKFCalls_Trace.tla.",
+             "an invariant, and the behaviours are replayed into process_model (inputs unmodified, repeat call identical). Thorough tier: every model / filter call the repository's own test-suite executes is recorded (pytest plugin, /repo untouched), projected against the Jacobian trees Derive.tla derives from the recorded definition and validated by EKFCalls_Trace.tla. TLC also checks that measuring a control in other units changes nothing (InvRescaleControl); every behaviour with a control is replayed a second time with that control in units 2^20 times larger (noise variance ~1e-12).",
         design_ref="DESIGN.md section 4 C04",
         note="Trusted: exact rational linear algebra (Linalg.tla); rational fragment only; SPD integer covariances.",
         technique="TLA+ spec (Formak.tla Predict) + TLC simulation with invariants; spec->code replay into the Python EKF",
@@ -76,7 +76,7 @@ CHECKS = {
              "unchanged and is never enabled with filtering disabled. Behaviours with thresholds k in {None, 1/256, 1/2, 1, 2.576, 3, 5} are "
              "replayed into the Python filter (bit-identical estimate on discard, from a prior that is symmetric only up to rounding) and into "
              "the generated C++ filter for every threshold; GateCases.tla enumerates exact cases incl. the boundary for m = 1,2,3,8 against "
-             "remove_innovation and the real removeInnovation<m>; a +-6 ulp band around fl(k sqrt(2m)+m) for m = 1,2,3,5,7 is trace-validated. Thorough tier: every model / filter call the repository's own test-suite executes is recorded (pytest plugin, /repo untouched), projected against the Jacobian trees Derive.tla derives from the recorded definition and validated by EKFCalls_Trace.tla.",
+             "remove_innovation and the real removeInnovation<m>; a +-6 ulp band around fl(k sqrt(2m)+m) for m = 1,2,3,5,7 is trace-validated. Thorough tier: every model / filter call the repository's own test-suite executes is recorded (pytest plugin, /repo untouched), projected against the Jacobian trees Derive.tla derives from the recorded definition and validated by EKFCalls_Trace.tla. Every exact-boundary case of GateCases.tla and its neighbours also run through whole filters: Python sensor_model and the generated C++ sensor update (m = 2 and 8, P = Q = S/2).",
         design_ref="DESIGN.md section 4 C06",
         note="Trusted: exact rational arithmetic; ulp-level boundary agreement between implementations is the trace part (DESIGN 4 C06 d).",
         technique="TLA+ spec (Formak.tla UpdateAccept/UpdateReject + Gate) + TLC; spec->code replay into Python (and C++) filters",
@@ -87,7 +87,7 @@ CHECKS = {
              "family with several dt per process, look-alike names, magnitudes given as float / int / Rational / Fraction) are rendered by FormaK's "
              "C++ generator with CSE off and on, compiled with g++ and model / process_jacobian / control_jacobian / covariance / "
              "SensorModel::{model,jacobian,covariance} compared entry by entry, by name, with the spec's exact values; published C++ layouts must "
-             "equal the spec's name order; a generated file that does not compile is itself a violation.",
+             "equal the spec's name order; a generated file that does not compile is itself a violation. A third family has controls and calibrations always present and grows expressions by chaining binary operators (mixed-symbol expressions); every other replay goes through the public entry points cpp.compile / cpp.compile_ekf (configuration as dict or Config object) and the compiled-in configuration constants are compared bit for bit.",
         design_ref="DESIGN.md section 4 C02",
         note="Trusted: Eigen stand-in (no Eigen in the sandbox), g++ 12 -std=c++20, name<->index maps probed from the generated accessors.",
         technique="TLA+ spec (Formak.tla) + TLC simulation; spec->code replay into generated, compiled C++",
@@ -117,7 +117,7 @@ CHECKS = {
              "that every applicable fault falsifies Valid, enumerates every single fault at every position of 4 valid base definitions "
              "(and every pair in the thorough tier; invariants: faults never cancel, refusal is monotone along the pipeline) and states "
              "the expected outcome at ui.Model, python.compile, python.compile_ekf, cpp.compile, cpp.compile_ekf; every case is presented "
-             "to the real entry points (C++ ones with a synthetic argv; a refused definition must not leave a source file).",
+             "to the real entry points (C++ ones with a synthetic argv; a refused definition must not leave a source file). Every single-fault case is also presented on a ui.Model object that has already compiled the valid base definition.",
         design_ref="DESIGN.md section 4 C14",
         note="Trusted: the rule/observability table of Definition.tla (which entry point can observe which rule); refused = any exception.",
         technique="TLA+ spec (Definition.tla fault catalogue) + TLC exhaustive enumeration; spec->code replay into the five entry points",
@@ -127,7 +127,7 @@ CHECKS = {
         text="Codegen.tla generates presentations of a definition (a declaration permutation for each of ten roles, container kind, "
              "string-vs-expression updates); each PYTHONHASHSEED gets fresh processes that render every (definition, presentation) "
              "through the real cpp.compile_ekf and python.compile_ekf; the recorded generation events (sha256 of header, source, "
-             "Python layouts) are validated by TLC against the write-once digest registers of Codegen_Trace.tla.",
+             "Python layouts) are validated by TLC against the write-once digest registers of Codegen_Trace.tla. Odd hash seeds render their jobs in reverse order (what was generated earlier in the process must not matter); definitions in which CSE creates temporaries and names that differ in case only are preferred.",
         design_ref="DESIGN.md section 4 C15",
         note="Trusted: sha256; the register spec; string-form and expression-form presentations are separate registers (the property "
              "does not claim they coincide).",
@@ -149,7 +149,7 @@ CHECKS = {
              "row's controls, then update the sensors in key order; TLC computes every NIS exactly (invariant: all non-negative) and the "
              "score as a formula tree. Each behaviour is replayed into a real SklearnEKFAdapter: NIS per (row, sensor), the recorded call "
              "sequence of the inner filter by control/reading NAME, mahalanobis = flattening, score, a by-hand fold on export_python(), "
-             "parameters untouched, repeat call identical.",
+             "parameters untouched, repeat call identical. The same relations are checked on a quiet log (NIS 1e-10..1e-6); a weight array handed to score twice gives the same score and is not written to, nor is the data matrix.",
         design_ref="DESIGN.md section 4 C16",
         note="Trusted: exact rational Kalman arithmetic; recording proxy around the real compile_ekf result; reference interpreter for the score tree.",
         technique="TLA+ spec (Formak.tla TransformRow + ScoreTree) + TLC simulation; spec->code replay into the scikit-learn adapter",
@@ -182,7 +182,7 @@ CHECKS = {
              "SetEstimate/Predict/Update behaviours of Formak.tla -- including singular-Jacobian models -- and the behaviours are replayed "
              "into the Python filter (never refused, values match). Rounding part: seeded randomised histories of up to 200 steps on the "
              "project's mass/z/v/a model, exactly correlated states, a nonlinear calibrated model, a zero-Jacobian-row model and TLC-drawn "
-             "models are recorded (outcome, validity of input and output covariance) and validated by TLC against the protocol CovGate_Trace. Thorough tier: every model / filter call the repository's own test-suite executes is recorded (pytest plugin, /repo untouched), projected against the Jacobian trees Derive.tla derives from the recorded definition and validated by EKFCalls_Trace.tla. The exact behaviours start from covariances D + v v^T that are singular for some rotations and are replayed into the generated C++ filter too.",
+             "models are recorded (outcome, validity of input and output covariance) and validated by TLC against the protocol CovGate_Trace. Thorough tier: every model / filter call the repository's own test-suite executes is recorded (pytest plugin, /repo untouched), projected against the Jacobian trees Derive.tla derives from the recorded definition and validated by EKFCalls_Trace.tla. The exact behaviours start from covariances D + v v^T that are singular for some rotations and are replayed into the generated C++ filter too. A third family of histories has almost exact sensors (noise 1e-12..1e-10 under covariances of 1..1e5): refusals of strictly valid inputs only.",
         design_ref="DESIGN.md section 4 C09 / section 6",
         note="The rounding claim itself is decided by the NumPy projection (relative 1e-9 symmetry / eigenvalue test); TLC checks the exact "
              "update forms and the protocol. Stated in DESIGN.md section 6 as the weakest property for this technique.",
@@ -206,7 +206,7 @@ CHECKS = {
              "sub-terms is extracted as a straight-line program -- Python through the guarded hook (post-CSE sympy program), C++ by parsing the "
              "generated function bodies -- and validated by TLC (CSE_Trace.tla): the spec derives the ORIGINAL expressions itself, checks that "
              "every temporary is assigned once, before use, from inputs and earlier temporaries, and that the program's value equals the "
-             "original's exactly on the scenario's points. The same scenarios are executed with CSE off and on in both back-ends.",
+             "original's exactly on the scenario's points. The same scenarios are executed with CSE off and on in both back-ends. A further family builds |t| = sqrt(t^2) around shared compound terms of both signs; elementary-function expectations are compared only where the evaluation is well conditioned; the failing input of known finding F1 is replayed on every run.",
         design_ref="DESIGN.md section 4 C08",
         note="Trusted: the sympy->tree and C-expression->tree converters (unsupported syntax is dropped and counted, never judged); exact "
              "rational evaluation for the rational fragment, reference interpreter for elementary functions.",
@@ -242,7 +242,9 @@ def main():
         ],
         "checks": [],
         "not_applicable": [],
-        "notes": "Single entry point /verif/check <ID> --tier quick|thorough [--replay path]; exit 0 held, 1 VIOLATION, 2 machinery failure.",
+        "notes": "Single entry point /verif/check <ID> --tier quick|thorough [--replay path]; exit 0 held, 1 VIOLATION, 2 machinery failure. "
+                 "Known findings: /verif/known_findings.json (one open finding F1, upstream sympy -- printed as KNOWN-FINDING by C03 and C08 on every run "
+                 "from the fixed input corpus/F1_acos_tanh8.json; fifteen repaired defects listed as fixed:). DESIGN.md section 9 is the as-built record.",
     }
     for pid in PROPS:
         if pid in CHECKS:
